@@ -3,9 +3,12 @@
    the real HalfConnection.
 
    C12  Unreliable / TimeSensitive fragments are transmitted at most once; a TimeSensitive
-        packet not begun by the step() after its send() is never transmitted; Persistent /
-        Reliable fragments are not transmitted again once a valid acknowledgement for a frame
-        carrying them has been processed, nor once the receiver reported moving past the packet.
+        packet not begun by the step() after its send() is never transmitted (whether or not it
+        had been taken from the send queue and numbered before that step: two reasons, the second
+        is finding F17, repaired); Persistent / Reliable fragments are not transmitted again once
+        a valid acknowledgement for a frame carrying them has been processed, nor once the
+        receiver reported moving past the packet; and the sender does not give up on one (offer a
+        packet-window resynchronisation beyond it) while a fragment of it is unacknowledged.
    C04  no emitted frame exceeds 1472 bytes.
 
    "Valid acknowledgement" is decided here, from the trace alone: an ack group is valid iff
@@ -80,6 +83,10 @@ DgFlags(g) ==
              (IF m \in {"U", "T"} /\ pr \in emitted THEN Flag("C12", "unreliable-fragment-sent-twice") ELSE {})
         \cup (IF m = "T" /\ u \notin begun /\ IsStale(u) /\ g.pid >= StaleLimit(u)[2]
                  THEN Flag("C12", "timesensitive-begun-after-step") ELSE {})
+        \* the same, for a packet that had already been given a packet id (taken from the send queue into the pending
+        \* queue) before the step although none of it had been sent: reported under its own reason (F17)
+        \cup (IF m = "T" /\ u \notin begun /\ IsStale(u) /\ g.pid < StaleLimit(u)[2]
+                 THEN Flag("C12", "timesensitive-begun-after-step-though-numbered-before-it") ELSE {})
         \cup (IF m \in {"P", "R"} /\ pr \in acked THEN Flag("C12", "resent-after-ack-processed") ELSE {})
         \cup (IF m \in {"P", "R"} /\ u \in passed THEN Flag("C12", "resent-after-receiver-moved-past") ELSE {})
 
